@@ -1,6 +1,6 @@
 (* OblC01.v — generated-table obligations for C01 (copied into build/gen and compiled on every run;
    GenDb / GenCode / GenLookups / GenDbLookups are regenerated from /repo). *)
-From NV Require Import Base Bits Defn PyNum Fields Dispatch Template Spec SpecProofs.
+From NV Require Import Base Bits Defn PyNum Fields Dispatch Template Spec SpecProofs SpecVar SpecVarProofs.
 From NVGen Require Import GenDb GenCode GenLookups GenDbLookups.
 
 Definition db_groups : list (list dbdef) := groups db_defs.
@@ -41,3 +41,53 @@ Eval vm_compute in
    length (filter simple_def (flat_map bound_defs db_groups)),
    length (flat_map d_fields (filter simple_def (flat_map bound_defs db_groups))),
    length (flat_map d_fields db_defs)).
+
+(* ---- variable layout: STRING_LAU / STRING_LZ, fields without BitOffset, BINARY with BitLengthField,
+        INDIRECT_LOOKUP (SpecVar.v) ---- *)
+(* every two-key table an INDIRECT_LOOKUP field names is among the dictionaries of the code *)
+Theorem C01_indirect_tables :
+  forallb (indirect_tables_ok code_indirect) (flat_map bound_defs db_groups) = true.
+Proof. vm_compute. reflexivity. Qed.
+
+(* C01 for the code of this run: every definition of the class var_def (it contains the fixed-layout
+   ones), every payload: the translated decoder = the position-threading specification *)
+Theorem C01_var : forall g d, In g db_groups -> In d (bound_defs g) -> var_def d = true ->
+  exists cd, find_fname (fname_of g d) code_dec = Some cd /\
+    forall p, run_ddef code_lookups code_bitlookups code_indirect p cd
+              = spec_decode_var (norm_lookups db_lookups) (norm_lookups db_bitlookups)
+                                (norm_ilookups db_indirect) p d.
+Proof.
+  intros g d Hg Hd S.
+  destruct C01_lookups as [E1 [E2 E3]]. rewrite E1, E2, E3.
+  apply def_ok_sound_var; [|exact S|].
+  - pose proof C01_tables as T. rewrite forallb_forall in T. specialize (T g Hg).
+    unfold group_defs_ok in T. rewrite forallb_forall in T. apply T. exact Hd.
+  - pose proof C01_indirect_tables as T. rewrite forallb_forall in T. apply T.
+    apply in_flat_map. exists g. split; assumption.
+Qed.
+Print Assumptions C01_var.
+
+(* non-vacuity on the real table: definitions outside simple_def satisfy var_def — one with a
+   STRING_LAU followed by position-less fields, one with an INDIRECT_LOOKUP, one with a BitLengthField *)
+Example C01_var_nonvacuous :
+  let bd := flat_map bound_defs db_groups in
+  existsb (fun d => var_def d && negb (simple_def d)
+                    && existsb (fun f => is_t f T_STRING_LAU) (d_fields d)) bd = true /\
+  existsb (fun d => var_def d && negb (simple_def d)
+                    && existsb (fun f => is_t f T_INDIRECT) (d_fields d)) bd = true /\
+  existsb (fun d => var_def d && negb (simple_def d)
+                    && existsb (fun f => match f_bitlen f, f_bitlenfield f with None, Some _ => true | _, _ => false end)
+                               (d_fields d)) bd = true.
+Proof. vm_compute. repeat split; reflexivity. Qed.
+
+(* coverage of C01_var: bound definitions, of which in var_def, of which not fixed-layout; fields of the
+   covered definitions, fields of all bound definitions; definitions whose BitOffsets equal the running
+   position (the two readings of the specification coincide there: SpecVarProofs.spec_offsets_agree);
+   PGNs of the bound definitions outside var_def *)
+Eval vm_compute in
+  (let bd := flat_map bound_defs db_groups in
+   (length bd, length (filter var_def bd),
+    length (filter (fun d => var_def d && negb (simple_def d)) bd),
+    length (flat_map d_fields (filter var_def bd)), length (flat_map d_fields bd),
+    length (filter (fun d => offsets_consistent 0 (d_fields d)) bd),
+    map d_pgn (filter (fun d => negb (var_def d)) bd))).
